@@ -34,6 +34,8 @@ type Case struct {
 	Off     int    `json:"off,omitempty"`
 	Val     uint64 `json:"val,omitempty"`
 	Raw     []byte `json:"raw,omitempty"`
+	Src     string `json:"src,omitempty"`   // source kind handed to the entry point (default guard)
+	Drain   string `json:"drain,omitempty"` // catar decoders: what the caller does with a payload reader (none/part/all)
 }
 
 // input materialises the bytes and what is known about them.
@@ -221,6 +223,12 @@ func genCase(t *rapid.T) Case {
 			types = append(types, rapid.SampledFrom(names).Draw(t, "type"))
 		}
 	}
+	if sourceTarget(c.Target) && rapid.IntRange(0, 9).Draw(t, "plainsrc") >= 4 {
+		c.Src = rapid.SampledFrom(sourceKinds[1:]).Draw(t, "src")
+	}
+	if drainTarget(c.Target) {
+		c.Drain = rapid.SampledFrom([]string{"", "none", "part", "all"}).Draw(t, "drain")
+	}
 	// which elements are hostile: usually exactly one, sometimes none or two
 	h1 := rapid.IntRange(0, len(types)-1).Draw(t, "h1")
 	h2 := -1
@@ -250,6 +258,12 @@ func describe(c Case, in []byte, k known, r res) map[string]any {
 	if k.What != "" {
 		m["what"] = k.What
 	}
+	if c.Src != "" {
+		m["src"] = c.Src
+	}
+	if c.Drain != "" {
+		m["drain"] = c.Drain
+	}
 	switch c.Form {
 	case "elems":
 		var sh []string
@@ -269,22 +283,28 @@ func describe(c Case, in []byte, k known, r res) map[string]any {
 
 // verdict applies the oracle to what one target call showed.
 func verdict(o *hx.Outcome, target string, in []byte, k known, r res) {
+	verdictTag(o, target, "", in, k, r)
+}
+
+// verdictTag: tag ("" for the default source) is appended to every signature so that a failure
+// that depends on the kind of reader is told apart from the plain one.
+func verdictTag(o *hx.Outcome, target, tag string, in []byte, k known, r res) {
 	if r.Panic != nil {
-		o.Fail("C19:"+target+":panic:"+r.Elem, "%s panicked on %d input bytes (%d consumed, element in flight %s): %v\n%s",
+		o.Fail("C19:"+target+":panic:"+r.Elem+tag, "%s panicked on %d input bytes (%d consumed, element in flight %s): %v\n%s",
 			target, len(in), r.Consumed, r.Elem, r.Panic, trimStack(r.Stack))
 	}
 	if bound := allocBound(len(in), r.Exempt); r.Alloc > bound {
-		o.Fail("C19:"+target+":alloc:"+r.Elem, "%s allocated %d bytes for %d input bytes (bound %d; element in flight %s)",
+		o.Fail("C19:"+target+":alloc:"+r.Elem+tag, "%s allocated %d bytes for %d input bytes (bound %d; element in flight %s)",
 			target, r.Alloc, len(in), bound, r.Elem)
 	}
 	if k.Malformed && !r.Unsafe && r.Panic == nil {
 		sizeKnown := strings.HasPrefix(k.What, "size:") || k.What == "unknown-type"
 		switch {
 		case r.Err == nil:
-			o.Fail("C19:"+target+":accepts-malformed:"+k.What, "%s returned no error for an input that is malformed by construction (%s; %d bytes, %d successful calls, %d well-formed elements in front)",
+			o.Fail("C19:"+target+":accepts-malformed:"+k.What+tag, "%s returned no error for an input that is malformed by construction (%s; %d bytes, %d successful calls, %d well-formed elements in front)",
 				target, k.What, len(in), r.Calls, k.OKBefore)
 		case sizeKnown && (target == "format" || target == "protomsg") && r.Calls > k.OKBefore:
-			o.Fail("C19:"+target+":accepts-malformed:"+k.What, "%s returned %d elements although element %d is malformed by construction (%s); later error: %v",
+			o.Fail("C19:"+target+":accepts-malformed:"+k.What+tag, "%s returned %d elements although element %d is malformed by construction (%s); later error: %v",
 				target, r.Calls, k.OKBefore, k.What, r.Err)
 		}
 	}
@@ -311,11 +331,57 @@ func run(c Case) (o hx.Outcome) {
 	if err != nil {
 		panic("c19: cannot build the input: " + err.Error())
 	}
-	r := runTarget(c.Target, in, unsafeLo)
+	op := opt{Src: c.Src, Drain: c.Drain}
+	if !validOpt(c.Target, op) {
+		panic(fmt.Sprintf("c19: source %q / drain %q not applicable to target %s", c.Src, c.Drain, c.Target))
+	}
+	var r res
+	var base *res
+	tag := ""
+	if op.src() == "guard" {
+		r = runTargetOpt(c.Target, in, unsafeLo, op)
+	} else {
+		// reference run of the same input and drain mode on the guarded, non-seekable source
+		b := runTargetOpt(c.Target, in, unsafeLo, opt{Drain: c.Drain})
+		base = &b
+		if sourceSeekable(op.src()) {
+			tag = ":seekable-source"
+		} else {
+			tag = ":" + op.src()
+		}
+		if sourceUnguarded(op.src()) && c.Target != "index" && b.Unsafe {
+			// the real reader types cannot be guarded: left out when the guarded run withheld a value
+			r = b
+			r.Skipped = "unguarded-source"
+			base = nil
+		} else {
+			r = runTargetOpt(c.Target, in, unsafeLo, op)
+			if r.Elem == "none" {
+				r.Elem = b.Elem
+			}
+			if r.Consumed < 0 {
+				r.Consumed = b.Consumed
+			}
+		}
+	}
 	o.Desc = describe(c, in, k, r)
-	o.Key = c.Target + "/" + hx.Hash8(in) + fmt.Sprint(len(in))
+	o.Key = c.Target + "/" + hx.Hash8(in) + fmt.Sprint(len(in)) + "/" + c.Src + "/" + c.Drain
 	o.Nontrivial = r.Consumed >= 16
 	o.Class("target:"+c.Target, "form:"+c.Form)
+	if sourceTarget(c.Target) {
+		o.Class("source:" + op.src())
+	}
+	if drainTarget(c.Target) {
+		o.Class("drain:" + op.drain(c.Target))
+	}
+	if c.Form == "trunc" && k.What == "trunc:CaFormatPayload" && drainTarget(c.Target) {
+		how := map[string]string{"none": "undrained", "part": "partly", "all": "drained"}[op.drain(c.Target)]
+		if sourceSeekable(op.src()) {
+			o.Class("trunc-in-payload:seekable:" + how)
+		} else {
+			o.Class("trunc-in-payload:stream:" + how)
+		}
+	}
 	if c.Form == "elems" {
 		d := targetDomain(c.Target)
 		for _, e := range c.Elems {
@@ -356,8 +422,38 @@ func run(c Case) (o hx.Outcome) {
 	if r.Alloc > 1<<20 {
 		o.Class("alloc>1MiB")
 	}
-	verdict(&o, c.Target, in, k, r)
+	verdictTag(&o, c.Target, tag, in, k, r)
+	// the outcome must not depend on the kind of reader the bytes come from
+	if base != nil && !base.Unsafe && !r.Unsafe && base.Panic == nil && r.Panic == nil {
+		if (base.Err == nil) != (r.Err == nil) || base.Calls != r.Calls {
+			o.Fail("C19:"+c.Target+":source-dependent"+tag, "%s on %d bytes (drain %s): source %s gives err=%v after %d results, the plain stream reader gives err=%v after %d results",
+				c.Target, len(in), op.drain(c.Target), op.src(), r.Err, r.Calls, base.Err, base.Calls)
+		}
+	}
 	return o
+}
+
+// validOpt: source kinds apply to the entry points that take a reader, drain modes to the catar decoders.
+func validOpt(target string, o opt) bool {
+	if o.Src != "" {
+		ok := false
+		for _, k := range sourceKinds {
+			ok = ok || k == o.Src
+		}
+		if !ok || !sourceTarget(target) {
+			return false
+		}
+	}
+	if o.Drain != "" {
+		ok := false
+		for _, m := range drainModes {
+			ok = ok || m == o.Drain
+		}
+		if !ok || !drainTarget(target) {
+			return false
+		}
+	}
+	return true
 }
 
 var requiredClasses = func() []string {
@@ -365,6 +461,17 @@ var requiredClasses = func() []string {
 		"known-malformed", "malformed:size", "malformed:trunc", "outcome:error", "outcome:accepted"}
 	for _, t := range allTargets {
 		req = append(req, "target:"+t)
+	}
+	for _, k := range sourceKinds {
+		req = append(req, "source:"+k)
+	}
+	for _, m := range drainModes {
+		req = append(req, "drain:"+m)
+	}
+	for _, a := range []string{"seekable", "stream"} {
+		for _, b := range []string{"undrained", "partly", "drained"} {
+			req = append(req, "trunc-in-payload:"+a+":"+b)
+		}
 	}
 	for _, s := range sizeKinds {
 		req = append(req, "size:"+s)
@@ -390,7 +497,8 @@ var spec = &hx.Spec[Case]{
 		"decoded chunk payload of a CHUNK message is exempt from the bound (4 x its independently decoded size; frames over 64 MiB are not fed to desync)",
 		"size values in the open interval (2^30, 2^48+64) are never handed to the code under test (guard reader / prescan of offsets 0 and 48)",
 		"malformed-must-fail is judged only where the generator broke a size field or truncated; fixed-size elements must carry their fixed size",
-		"UnTar writes into a no-op FilesystemWriter that drains file bodies like LocalFS does",
+		"UnTar writes into a no-op FilesystemWriter that drains file bodies like LocalFS does (drain mode all; part/none model a writer that stops early)",
+		"*bytes.Reader, *os.File and *bufio.Reader are handed over unguarded, only after a guarded run of the same input withheld nothing; the outcome (error or not, number of results) must equal that of the guarded stream reader",
 	},
 	Required: requiredClasses,
 	Gen:      genCase,
@@ -479,9 +587,49 @@ func TestEnum(t *testing.T) {
 	}
 	hx.AddNote("enumerated_cases", ran)
 	if failed == 0 {
-		hx.Exhaustive("every element/message type x every hostile size x {natural, empty, longer} body for every entry point; every truncation and every single-field mutation (size x hostile sizes, type x known identifiers, body fields x hostile values) of index.caibx, *.catar and the recorded protocol session, for every applicable entry point")
+		hx.Exhaustive("every element/message type x every hostile size x {natural, empty, longer} body for every entry point; every truncation of the single-file archives and every truncation in/around a payload of the catar fixtures x every source kind x every payload consumption; every truncation and every single-field mutation (size x hostile sizes, type x known identifiers, body fields x hostile values) of index.caibx, *.catar and the recorded protocol session, for every applicable entry point")
 	}
 }
+
+// cutsFor: every truncation length of a fixture; for the big single-file archive a sample that
+// keeps everything near the element boundaries and the usual buffer sizes.
+func cutsFor(f *fixture) []int {
+	var cuts []int
+	for cut := 0; cut < len(f.Data); cut++ {
+		if len(f.Data) > 5000 {
+			near := cut < 120 || cut >= len(f.Data)-8
+			for _, m := range []int{512, 4096, 4096 + 80, 8192, 8192 + 80} {
+				near = near || (cut >= m-2 && cut <= m+2)
+			}
+			if !near && cut%997 != 0 {
+				continue
+			}
+		}
+		cuts = append(cuts, cut)
+	}
+	return cuts
+}
+
+// combosFor: the non-default (source kind, payload consumption) combinations of an entry point.
+func combosFor(target string) []opt {
+	var out []opt
+	drains := []string{""}
+	if drainTarget(target) {
+		drains = drainModes
+	}
+	for _, k := range sourceKinds {
+		for _, d := range drains {
+			o := opt{Src: k, Drain: d}
+			if k == "guard" && (d == "" || d == o2default(target)) {
+				continue // the plain enumeration above
+			}
+			out = append(out, o)
+		}
+	}
+	return out
+}
+
+func o2default(target string) string { return opt{}.drain(target) }
 
 func enumCases() ([]Case, error) {
 	fm, err := fixtures()
@@ -491,15 +639,56 @@ func enumCases() ([]Case, error) {
 	out := gridCases()
 	do := func(c Case) { out = append(out, c) }
 	bodyVals := []uint64{0, 1, 1 << 21, sizeHuge48, 1 << 63, ^uint64(0)}
+	ti := 0
 	for _, name := range fixtureNames() {
 		f := fm[name]
 		for _, target := range f.Targets {
 			do(Case{Target: target, Form: "fixture", Fixture: name})
-			for cut := 0; cut < len(f.Data); cut++ {
+			cuts := cutsFor(f)
+			for _, cut := range cuts {
 				if target == "indexfile" && cut > 80 {
 					break // only the first element is looked at
 				}
 				do(Case{Target: target, Form: "trunc", Fixture: name, Cut: cut})
+			}
+			if !sourceTarget(target) {
+				continue
+			}
+			// --- source kind x payload consumption
+			combos := combosFor(target)
+			ti++
+			for _, co := range combos { // the intact fixture under every combination
+				do(Case{Target: target, Form: "fixture", Fixture: name, Src: co.Src, Drain: co.Drain})
+			}
+			full := map[int]bool{} // cuts that get the complete product
+			switch {
+			case name == "single.catar" || name == "single-big.catar" || !drainTarget(target):
+				for _, cut := range cuts {
+					full[cut] = true
+				}
+			default:
+				// around and inside every payload
+				for _, sp := range f.Spans {
+					if sp.Name != "CaFormatPayload" {
+						continue
+					}
+					for _, cut := range []int{sp.Off, sp.Off + 1, sp.Off + 8, sp.Off + 15, sp.Off + 16, sp.Off + 17, (sp.Off + 16 + sp.End) / 2, sp.End - 1, sp.End, sp.End + 1, sp.End + 16} {
+						if cut >= 0 && cut < len(f.Data) {
+							full[cut] = true
+						}
+					}
+				}
+			}
+			for ci, cut := range cuts {
+				if full[cut] {
+					for _, co := range combos {
+						do(Case{Target: target, Form: "trunc", Fixture: name, Cut: cut, Src: co.Src, Drain: co.Drain})
+					}
+					continue
+				}
+				// everywhere else: one more combination per cut, rotating through all of them
+				co := combos[(ci+5*ti)%len(combos)]
+				do(Case{Target: target, Form: "trunc", Fixture: name, Cut: cut, Src: co.Src, Drain: co.Drain})
 			}
 			seenType := map[string]bool{}
 			for si, s := range f.Spans {
